@@ -6,4 +6,4 @@ Extraction Language OCaml.
 Extraction "extract/model.ml" NumF build optimise run run_states init advance accept
   from_operations_l
   positions to_cartesian_isometry periodic_images cell_area packed_score check_intersection
-  shape_transform shape_intersects lj_score lj_energy ljshape_energy poly_area mol_area.
+  shape_transform shape_intersects lj_score lj_energy ljshape_energy poly_area mol_area shape_radius.
